@@ -10,8 +10,8 @@ from vcheck import log
 
 # (family, runs, steps)
 PLANS = {
-    "C01": dict(models=dict(quick=[("MC_HRaft.tla", "MC_Election_q.cfg", 300)], thorough=[("MC_HRaft.tla", "MC_Election.cfg", 900), ("MC_HRaft.tla", "MC_Crash.cfg", 900)]), families=dict(quick=[("chaos", 24, 500), ("elect", 24, 400), ("voterestart", 8, 0), ("stalerepl", 4, 0), ("fastpathrace", 8, 0), ("phases", 10, 0)], thorough=[("chaos", 160, 800), ("elect", 200, 600), ("member", 80, 500), ("voterestart", 48, 0), ("stalerepl", 24, 0), ("fastpathrace", 48, 0), ("phases", 64, 0)])),
-    "C02": dict(models=dict(quick=[("MC_HRaft.tla", "MC_Replication_q.cfg", 300)], thorough=[("MC_HRaft.tla", "MC_Replication.cfg", 900), ("MC_HRaft.tla", "MC_Snapshot_q.cfg", 900)]), families=dict(quick=[("chaos", 16, 500), ("snap", 24, 500), ("client", 8, 400), ("restoreinflight", 12, 0), ("dupis", 9, 500), ("snapcfgrace", 16, 0), ("staleprefix", 4, 0), ("phases", 10, 0)], thorough=[("chaos", 120, 800), ("snap", 200, 800), ("client", 80, 600), ("restart", 80, 600), ("restoreinflight", 96, 0), ("restore", 60, 500), ("dupis", 48, 500), ("snapcfgrace", 96, 0), ("snapmember", 60, 500), ("staleprefix", 32, 0), ("phases", 64, 0)])),
+    "C01": dict(models=dict(quick=[("MC_HRaft.tla", "MC_Election_q.cfg", 300)], thorough=[("MC_HRaft.tla", "MC_Election.cfg", 900), ("MC_HRaft.tla", "MC_Crash.cfg", 900)]), families=dict(quick=[("chaos", 24, 500), ("elect", 24, 400), ("voterestart", 8, 0), ("stalerepl", 4, 0), ("fastpathrace", 8, 0), ("stalledleader", 6, 0), ("phases", 10, 0)], thorough=[("chaos", 160, 800), ("elect", 200, 600), ("member", 80, 500), ("voterestart", 48, 0), ("stalerepl", 24, 0), ("fastpathrace", 48, 0), ("stalledleader", 32, 0), ("phases", 64, 0)])),
+    "C02": dict(models=dict(quick=[("MC_HRaft.tla", "MC_Replication_q.cfg", 300)], thorough=[("MC_HRaft.tla", "MC_Replication.cfg", 900), ("MC_HRaft.tla", "MC_Snapshot_q.cfg", 900)]), families=dict(quick=[("chaos", 16, 500), ("snap", 24, 500), ("client", 8, 400), ("restoreinflight", 12, 0), ("dupis", 9, 500), ("snapcfgrace", 16, 0), ("staleprefix", 4, 0), ("restorebacklog", 8, 0), ("phases", 10, 0)], thorough=[("chaos", 120, 800), ("snap", 200, 800), ("client", 80, 600), ("restart", 80, 600), ("restoreinflight", 96, 0), ("restore", 60, 500), ("dupis", 48, 500), ("snapcfgrace", 96, 0), ("snapmember", 60, 500), ("staleprefix", 32, 0), ("restorebacklog", 48, 0), ("phases", 64, 0)])),
     "C03": dict(models=dict(quick=[("MC_HRaft.tla", "MC_Replication_q.cfg", 300)], thorough=[("MC_HRaft.tla", "MC_Replication.cfg", 900), ("MC_HRaft.tla", "MC_Crash.cfg", 900)]), families=dict(quick=[("chaos", 24, 500), ("restart", 16, 400), ("figure8", 40, 0), ("dupis", 9, 500), ("stalerepl", 6, 0), ("phases", 10, 0)], thorough=[("chaos", 200, 800), ("restart", 120, 600), ("member", 60, 500), ("figure8", 64, 0), ("dupis", 48, 500), ("stalerepl", 32, 0), ("phases", 64, 0)])),
     "C04": dict(models=dict(quick=[("MC_HRaft.tla", "MC_Dup_q.cfg", 300)], thorough=[("MC_HRaft.tla", "MC_Replication.cfg", 900), ("MC_HRaft.tla", "MC_Dup_q.cfg", 600)]), families=dict(quick=[("chaos", 16, 500), ("snap", 12, 400)], thorough=[("chaos", 200, 800), ("snap", 120, 600), ("restart", 80, 600)]), suites=["l2:ae"]),
     "C05": dict(models=dict(quick=[("MC_HRaft.tla", "MC_Replication_q.cfg", 300)], thorough=[("MC_HRaft.tla", "MC_Replication.cfg", 900), ("MC_HRaft.tla", "MC_Membership.cfg", 1200)]), families=dict(quick=[("chaos", 20, 500), ("member", 16, 400), ("figure8", 8, 0), ("dupis", 9, 500), ("phases", 10, 0)], thorough=[("chaos", 160, 800), ("member", 120, 600), ("figure8", 64, 0), ("dupis", 48, 500), ("phases", 64, 0)]), suites=["l1:commitment"]),
@@ -19,7 +19,7 @@ PLANS = {
     "C07": dict(models=dict(quick=[("MC_HRaft.tla", "MC_Membership_q.cfg", 300)], thorough=[("MC_HRaft.tla", "MC_Membership.cfg", 1200)]), families=dict(quick=[("member", 24, 400), ("cfgtrunc", 8, 0), ("snapmember", 8, 400), ("demoteelect", 8, 0)], thorough=[("member", 240, 600), ("cfgtrunc", 32, 0), ("snapmember", 80, 500), ("demoteelect", 48, 0)]), suites=["l1:configuration"]),
     "C08": dict(families=dict(quick=[("client", 32, 400), ("barrierrace", 8, 0)], thorough=[("client", 240, 600), ("chaos", 80, 600), ("barrierrace", 48, 0)])),
     "C09": dict(families=dict(quick=[("verify", 32, 400), ("member", 8, 400)], thorough=[("verify", 240, 600), ("member", 80, 500)])),
-    "C10": dict(models=dict(quick=[], thorough=[("MC_HRaft.tla", "MC_Crash.cfg", 900)]), families=dict(quick=[("restart", 24, 400), ("snapcfgrace", 12, 0), ("snapmember", 8, 400)], thorough=[("restart", 240, 600), ("snap", 80, 600), ("snapcfgrace", 96, 0), ("snapmember", 80, 500)]), suites=["l2:restart"]),
+    "C10": dict(models=dict(quick=[], thorough=[("MC_HRaft.tla", "MC_Crash.cfg", 900)]), families=dict(quick=[("restart", 24, 400), ("snapcfgrace", 12, 0), ("snapmember", 8, 400), ("ctcrash", 12, 0)], thorough=[("restart", 240, 600), ("snap", 80, 600), ("snapcfgrace", 96, 0), ("snapmember", 80, 500), ("ctcrash", 64, 0)]), suites=["l2:restart"]),
     "C11": dict(models=dict(quick=[("MC_HRaft.tla", "MC_Snapshot_q.cfg", 300)], thorough=[("MC_HRaft.tla", "MC_Snapshot_q.cfg", 900)]), families=dict(quick=[("snap", 24, 400), ("restart", 16, 400), ("snapcfgrace", 12, 0), ("phases", 10, 0)], thorough=[("snap", 200, 700), ("restart", 160, 600), ("restore", 60, 500), ("snapcfgrace", 96, 0), ("snapmember", 80, 500), ("phases", 64, 0)]), suites=["l1:compaction"]),
     "C12": dict(families=dict(quick=[("chaos", 16, 400), ("snap", 16, 400), ("restart", 12, 400), ("elect", 16, 400), ("prevoteterm", 8, 0), ("phases", 10, 0)], thorough=[("chaos", 120, 700), ("snap", 160, 700), ("restart", 120, 600), ("member", 40, 500), ("elect", 120, 500), ("restore", 60, 500), ("prevoteterm", 48, 0), ("phases", 64, 0)])),
     "C13": dict(models=dict(quick=[("LeaseTimed.tla", "LeaseTimed_q.cfg", 120)], thorough=[("LeaseTimed.tla", "LeaseTimed.cfg", 900), ("LeaseTimed.tla", "LeaseTimed_norearm.cfg", 300, "StepsDownInTime")]), families=dict(quick=[("lease", 24, 500), ("leasequiet", 8, 400), ("leaseiso", 12, 0)], thorough=[("lease", 200, 800), ("leasequiet", 48, 1200), ("leaseiso", 96, 0)])),
